@@ -409,12 +409,6 @@ func (e *c18Env) close() {
 	}
 }
 
-func b01(b bool) string {
-	if b {
-		return "1"
-	}
-	return "0"
-}
 
 func (e *c18Env) stateSig() string {
 	dr, pa, cur, fi, fo := e.comp.VerifC18State()
